@@ -582,3 +582,53 @@ Proof.
   unfold digits. intros H. rewrite forallb_forall in *. intros x Hx. specialize (H x Hx).
   unfold is_digit. rewrite (digit_val_ascii x H). reflexivity.
 Qed.
+
+(* float() of [sign] Unicode decimal digits: the value of the digits *)
+Lemma float_of_signed_digits sg ds : (sg = [] \/ sg = [43%N] \/ sg = [45%N]) ->
+  digits ds = true -> ds <> [] ->
+  py_float_of_str (sg ++ ds) =
+  Some (f_of_decimal (beq sg [45%N]) (dvalN (map asc ds) 0) (Z.of_nat (length ds)) 0).
+Proof.
+  intros Hs Hd Hne.
+  destruct (to_ascii_digits ds Hd) as [T C]. set (a := map asc ds) in *.
+  assert (La : length a = length ds) by (unfold a; apply map_length).
+  assert (Na : a <> []) by (unfold a; destruct ds; [congruence|discriminate]).
+  assert (Tsg : to_ascii sg = Some sg) by (destruct Hs as [->|[->| ->]]; reflexivity).
+  assert (NC : forallb nchar (sg ++ a) = true).
+  { rewrite forallb_app. apply andb_true_iff. split; [destruct Hs as [->|[->| ->]]; reflexivity|].
+    rewrite forallb_forall in *. intros x Hx. unfold nchar. rewrite (C x Hx). apply orb_true_r. }
+  unfold py_float_of_str. rewrite (to_ascii_app sg ds sg a Tsg T), (strip_us_id _ 0%N NC) by lia. rewrite (c_strip_id _ NC).
+  rewrite <- La.
+  destruct Hs as [->|[->| ->]]; cbn [app].
+  - destruct a as [|c t] eqn:Ea; [congruence|]. rewrite <- Ea in *.
+    assert (Hc : c <> 43%N /\ c <> 45%N).
+    { rewrite Ea in C. cbn in C. apply andb_true_iff in C. destruct C as [C _]. unfold c_digit in C. lia. }
+    rewrite Ea. replace (c =? 43)%N with false by lia. replace (c =? 45)%N with false by lia. rewrite <- Ea.
+    exact (parse_unsigned_num [] [] a false eq_refl (or_introl eq_refl) C Na).
+  - replace (43 =? 43)%N with true by reflexivity.
+    exact (parse_unsigned_num [] [] a false eq_refl (or_introl eq_refl) C Na).
+  - replace (45 =? 43)%N with false by reflexivity. replace (45 =? 45)%N with true by reflexivity.
+    exact (parse_unsigned_num [] [] a true eq_refl (or_introl eq_refl) C Na).
+Qed.
+
+(* rounding keeps the sign *)
+Lemma binary_round_aux_sign s m e l :
+  match binary_round_aux 53 1024 s m e l with
+  | S754_zero s' | S754_infinity s' | S754_finite s' _ _ => s' = s
+  | S754_nan => True
+  end.
+Proof.
+  unfold binary_round_aux. destruct (shr_fexp 53 1024 m e l) as [mrs e'].
+  destruct (shr_fexp 53 1024 _ e' loc_Exact) as [mrs'' e''].
+  destruct (shr_m mrs''); [reflexivity| |exact I]. destruct (Zle_bool e'' (1024 - 53)); reflexivity.
+Qed.
+
+Lemma float_of_pos_sign p x : float_of_Z (Zpos p) = Some x ->
+  match x with S754_zero s | S754_finite s _ _ => s = false | S754_infinity _ => False | S754_nan => True end.
+Proof.
+  unfold float_of_Z, f_normalize. cbn [binary_normalize]. unfold binary_round.
+  destruct (shl_align p 0 _) as [mz ez].
+  pose proof (binary_round_aux_sign false (Zpos mz) ez loc_Exact) as S.
+  change fprec with 53. change femax with 1024.
+  destruct (binary_round_aux 53 1024 false (Zpos mz) ez loc_Exact); intros H; try discriminate; injection H as <-; exact S.
+Qed.
